@@ -6,7 +6,9 @@ use std::path::{Path, PathBuf};
 use std::process::{Command, Stdio};
 use std::time::{Duration, Instant};
 
-pub const VERIF_ROOT: &str = "/verif";
+pub fn verif_root() -> String {
+    std::env::var("VERIF_ROOT").unwrap_or_else(|_| "/verif".to_string())
+}
 
 #[derive(Clone, Copy, PartialEq, Eq, Debug)]
 pub enum Tier {
@@ -202,7 +204,7 @@ pub fn worker_main(check: &dyn Check, tier: Tier, seed: u64, shard: usize, nshar
 
 fn load_known(property: &str) -> Vec<(String, String)> {
     // (signature, description) of entries with status "known" for this property
-    let path = Path::new(VERIF_ROOT).join("known_findings.json");
+    let path = Path::new(&verif_root()).join("known_findings.json");
     let mut out = vec![];
     if let Ok(s) = std::fs::read_to_string(&path) {
         if let Ok(j) = Json::parse(&s) {
@@ -233,7 +235,7 @@ pub struct RunOpts {
 pub fn run_check(check: &dyn Check, opts: &RunOpts) -> i32 {
     let t0 = Instant::now();
     let id = check.id();
-    let outdir = Path::new(VERIF_ROOT).join("out").join(id);
+    let outdir = Path::new(&verif_root()).join("out").join(id);
     let _ = std::fs::remove_dir_all(&outdir);
     std::fs::create_dir_all(&outdir).expect("create out dir");
     let nshards = check.shards(opts.tier);
@@ -474,7 +476,7 @@ pub fn run_check(check: &dyn Check, opts: &RunOpts) -> i32 {
         .with("assumptions", Json::strs(check.assumptions()))
         .with("wall_s", Json::Num(wall))
         .with("violations", Json::Int(seen_sig.len() as i64));
-    let evdir = Path::new(VERIF_ROOT).join("evidence");
+    let evdir = Path::new(&verif_root()).join("evidence");
     let _ = std::fs::create_dir_all(&evdir);
     let evpath = evdir.join(format!("{}.json", id));
     std::fs::write(&evpath, ev.to_pretty()).expect("write evidence");
